@@ -46,7 +46,7 @@ class CancellableAction(Future):
         :param args: the positional arguments to the action
         :param kwargs: the keyword arguments to the action
         """
-        if self.done():
+        if self.done() or self._running:
             raise InvalidStateError('Action has already been ran')
 
         try:
